@@ -90,7 +90,7 @@ def render(e):
     if k == "var":
         return e[1]
     if k == "lit":
-        return str(e[1])
+        return str(e[1]) + (e[2] or "")
     if k == "paren":
         return "(" + render(e[1]) + ")"
     if k == "field":
@@ -105,6 +105,8 @@ def render(e):
         return "::".join(e[1])
     if k == "call":
         return render(e[1]) + "(" + ", ".join(render(a) for a in e[2]) + ")"
+    if k == "mcall" and e[2] == "expect":
+        return render(e[1])          # `.expect("..")` on a conversion that cannot fail
     if k == "mcall":
         return render(e[1]) + "." + e[2] + "(" + ", ".join(render(a) for a in e[3]) + ")"
     if k == "ref":
@@ -115,6 +117,8 @@ def render(e):
         return e[1] + render(e[2])
     if k == "cast":
         return render(e[1]) + " as " + e[2]
+    if k == "mcall" and e[2] == "expect":
+        return render(e[1])
     raise TranslateError("cannot render expression %r" % (e[0],))
 
 
@@ -136,7 +140,14 @@ def untyped_literal(e):
 
 
 class Gen:
-    def __init__(self):
+    """release = False: the checked (dev-profile) semantics in the result monad, definitions k_<name>.
+    release = True: the release-profile semantics (wrapping arithmetic, debug assertions compiled out) as a pure function
+    that also returns the leakage trace - the list of branch decisions (if / early return / short-circuit && ||) in
+    evaluation order - definitions r_<name> : .. -> value * list bool."""
+
+    def __init__(self, release=False):
+        self.release = release
+        self.prefix = "r_" if release else "k_"
         self.consts = {}      # crate-level constants: name -> (value, type)
         self.sigs = {}        # translated kernels: rust fn name -> (coq name, [param types], ret type)
         self.out = []
@@ -253,6 +264,8 @@ class Gen:
                     return Val(zlit(-a.const), a.ty, -a.const)
                 if a.ty not in ("i32", "i64"):
                     raise TranslateError("negation at type " + a.ty)
+                if self.release:
+                    return Val("(wrap%s (- %s))" % (a.ty[1:], a.coq), a.ty)
                 t = self.fresh()
                 c.lines.append("%s <- neg%s %s ;;" % (t, a.ty[1:], a.coq))
                 return Val(t, a.ty)
@@ -280,7 +293,10 @@ class Gen:
             t = self.fresh()
             cc = c.child()
             term, ty = self.seq(e[1], 0, e[2], cc, want)
-            c.lines.append("%s <- (%s) ;;" % (t, term))
+            if self.release:
+                c.lines.append("let '(%s, tr) := (%s) in" % (t, term))
+            else:
+                c.lines.append("%s <- (%s) ;;" % (t, term))
             return Val(t, ty)
         raise TranslateError("expression outside the understood subset: %r" % (e[0],))
 
@@ -333,6 +349,18 @@ class Gen:
             b = self.ex(r, cc, "bool")
             if a.ty != "bool" or b.ty != "bool":
                 raise TranslateError("`%s` on non-booleans" % op)
+            if self.release:
+                # short-circuit evaluation is a branch on the left operand
+                c.lines.append("let tr := tr ++ [%s] in" % a.coq)
+                if not cc.lines:
+                    return Val("(%s %s %s)" % (a.coq, op, b.coq), "bool")
+                t = self.fresh()
+                rhs = "\n".join(cc.lines) + "\n(%s, tr)" % b.coq
+                if op == "&&":
+                    c.lines.append("let '(%s, tr) := (if %s then (%s) else (false, tr)) in" % (t, a.coq, rhs))
+                else:
+                    c.lines.append("let '(%s, tr) := (if %s then (true, tr) else (%s)) in" % (t, a.coq, rhs))
+                return Val(t, "bool")
             if not cc.lines:
                 return Val("(%s %s %s)" % (a.coq, op, b.coq), "bool")
             t = self.fresh()
@@ -416,6 +444,8 @@ class Gen:
         if op in ("+", "-", "*"):
             if ty not in ("i32", "i64"):
                 raise TranslateError("checked `%s` at type %s is outside the understood subset" % (op, ty))
+            if self.release:
+                return Val("(wrap%s (%s %s %s))" % (ty[1:], a.coq, op, b.coq), ty)
             f = {"+": "add", "-": "sub", "*": "mul"}[op] + ty[1:]
             t = self.fresh()
             c.lines.append("%s <- %s %s %s ;;" % (t, f, a.coq, b.coq))
@@ -449,7 +479,11 @@ class Gen:
                 if v.ty != pt:
                     raise TranslateError("argument of %s has type %s, expected %s" % (f[1], v.ty, pt))
             t = self.fresh()
-            c.lines.append("%s <- %s %s ;;" % (t, name, " ".join(v.coq for v in vs)))
+            if self.release:
+                c.lines.append("let '(%s, tr1) := %s %s in" % (t, name, " ".join(v.coq for v in vs)))
+                c.lines.append("let tr := tr ++ tr1 in")
+            else:
+                c.lines.append("%s <- %s %s ;;" % (t, name, " ".join(v.coq for v in vs)))
             return Val(t, rty)
         raise TranslateError("call of %s is outside the understood subset" % (render(f) if f[0] in ("var", "path") else "a computed function"))
 
@@ -459,6 +493,8 @@ class Gen:
         if name == "abs" and not args:
             if a.ty not in ("i32", "i64"):
                 raise TranslateError(".abs() at type " + str(a.ty))
+            if self.release:
+                return Val("(wrap%s (Z.abs %s))" % (a.ty[1:], a.coq), a.ty)
             t = self.fresh()
             c.lines.append("%s <- abs%s %s ;;" % (t, a.ty[1:], a.coq))
             return Val(t, a.ty)
@@ -494,11 +530,20 @@ class Gen:
             raise TranslateError("if without else used as a value")
         if cond.const is not None:
             raise TranslateError("constant if condition")
+        if self.release:
+            c.lines.append("let tr := tr ++ [%s] in" % cond.coq)
         c1, c2 = c.child(), c.child()
         t1, ty1 = self.seq(e[2][1], 0, e[2][2], c1, want)
         t2, ty2 = self.seq(e[3][1], 0, e[3][2], c2, want)
         if ty1 != ty2:
             raise TranslateError("if branches have types %s and %s" % (ty1, ty2))
+        if self.release:
+            m1, m2 = re.match(r"^\((.*), tr\)$", t1, flags=re.S), re.match(r"^\((.*), tr\)$", t2, flags=re.S)
+            if m1 and m2 and "\n" not in t1 + t2:
+                return Val("(if %s then %s else %s)" % (cond.coq, m1.group(1), m2.group(1)), ty1)   # both branches pure
+            t = self.fresh()
+            c.lines.append("let '(%s, tr) := (if %s then (%s) else (%s)) in" % (t, cond.coq, t1, t2))
+            return Val(t, ty1)
         if not c1.lines and not c2.lines and t1.startswith("Ok ") and t2.startswith("Ok ") and "\n" not in t1 + t2:
             return Val("(if %s then %s else %s)" % (cond.coq, t1[3:], t2[3:]), ty1)   # both branches pure
         t = self.fresh()
@@ -508,6 +553,8 @@ class Gen:
     # ------------------------------------------------------------ statements
     def finish(self, c, v):
         """term for `lines ;; Ok v`, with the last bind returned directly when it is the value."""
+        if self.release:
+            return "\n".join(list(c.lines) + ["(%s, tr)" % v.coq])
         lines = list(c.lines)
         if lines:
             m = re.match(r"^(\w+) <- (.*) ;;$", lines[-1], flags=re.S)
@@ -524,13 +571,19 @@ class Gen:
             return self.tail(e[1], c, want)
         if k == "call" and e[1][0] == "var" and e[1][1] == "Ok" and len(e[2]) == 1 and c.gen_result:
             v = self.ex(e[2][0], c, want)
+            if self.release:
+                return "\n".join(c.lines + ["(Some %s, tr)" % v.coq]), v.ty
             return self.finish(c, v), v.ty
         if k == "call" and e[1][0] == "var" and e[1][1] == "Err" and len(e[2]) == 1 and c.gen_result:
             if e[2][0][0] != "str":
                 raise TranslateError("Err(..) of a non-literal")
+            if self.release:
+                return "\n".join(c.lines + ["(None, tr)"]), want
             return "\n".join(c.lines + ["Err %s" % self.err_of(e[2][0][1])]), want
         if k == "if" and e[3] is not None:
             cond = self.ex(e[1], c, "bool")
+            if self.release:
+                c.lines.append("let tr := tr ++ [%s] in" % cond.coq)
             c1, c2 = self.branch(c), self.branch(c)
             t1, ty1 = self.seq(e[2][1], 0, e[2][2], c1, want)
             t2, ty2 = self.seq(e[3][1], 0, e[3][2], c2, want)
@@ -656,6 +709,8 @@ class Gen:
                 raise TranslateError("let pattern outside the understood subset")
             if s[0] == "expr":
                 e = s[1]
+                if e[0] == "macro" and e[1] in ("debug_assert", "debug_assert_eq") and self.release:
+                    continue          # compiled out in the release profile: its condition is never evaluated
                 if e[0] == "macro" and e[1] in ("debug_assert", "debug_assert_eq"):
                     if e[1] == "debug_assert":
                         if len(e[2]) != 2 or e[2][1][0] != "str":
@@ -688,6 +743,8 @@ class Gen:
                     cond_ast, th, el = e[1], e[2], e[3]
                     if el is None and self.diverges(th):
                         cond = self.ex(cond_ast, c, "bool")
+                        if self.release:
+                            c.lines.append("let tr := tr ++ [%s] in" % cond.coq)
                         c1 = self.branch(c)
                         c1.declared = set(c.declared)
                         t1, ty1 = self.seq(th[1], 0, th[2], c1, want)
@@ -705,6 +762,8 @@ class Gen:
                         if not vs:
                             raise TranslateError("if statement without effect")
                         cond = self.ex(cond_ast, c, "bool")
+                        if self.release:
+                            c.lines.append("let tr := tr ++ [%s] in" % cond.coq)
                         terms, tys = [], None
                         for blk in (th, el):
                             cb = self.branch(c)
@@ -719,7 +778,7 @@ class Gen:
                                     raise TranslateError("variable %s is not assigned on every path" % key)
                                 outs.append(v)
                             tup = outs[0].coq if len(outs) == 1 else "(" + ", ".join(o.coq for o in outs) + ")"
-                            terms.append("\n".join(cb.lines + ["Ok %s" % tup]))
+                            terms.append("\n".join(cb.lines + [("(%s, tr)" if self.release else "Ok %s") % tup]))
                             if tys is not None and tys != [o.ty for o in outs]:
                                 raise TranslateError("branches assign different types")
                             tys = [o.ty for o in outs]
@@ -734,7 +793,11 @@ class Gen:
                                 if key not in c.assigned:
                                     c.assigned.append(key)
                         binder = names[0] if len(names) == 1 else "'(%s)" % ", ".join(names)
-                        c.lines.append("%s <- (if %s then (%s) else (%s)) ;;" % (binder, cond.coq, terms[0], terms[1]))
+                        if self.release:
+                            inner = names[0] if len(names) == 1 else "(%s)" % ", ".join(names)
+                            c.lines.append("let '(%s, tr) := (if %s then (%s) else (%s)) in" % (inner, cond.coq, terms[0], terms[1]))
+                        else:
+                            c.lines.append("%s <- (if %s then (%s) else (%s)) ;;" % (binder, cond.coq, terms[0], terms[1]))
                         continue
                     raise TranslateError("if statement shape outside the understood subset")
                 raise TranslateError("statement outside the understood subset: %r" % (e[0],))
@@ -760,6 +823,8 @@ class Gen:
             raise TranslateError("statement kernel assigns nothing")
         if len(outs) == 1:
             return self.finish(c, outs[0])
+        if self.release:
+            return "\n".join(c.lines + ["((%s), tr)" % ", ".join(o.coq for o in outs)])
         return "\n".join(c.lines + ["Ok (%s)" % ", ".join(o.coq for o in outs)])
 
     # ------------------------------------------------------------ kernels
@@ -777,7 +842,13 @@ class Gen:
     def emit(self, name, params, term, rty, comment):
         ps = " ".join("(%s : %s)" % (p, self.coq_type(t)) for p, t in params)
         body = "\n".join("  " + l for l in term.split("\n"))
-        self.out.append("(* %s *)\nDefinition %s %s : res %s :=\n%s.\n" % (comment, name, ps, self.coq_type(rty), body))
+        if self.release:
+            rt = self.coq_type(rty)
+            if getattr(self, "emit_option", False):
+                rt = "option " + rt
+            self.out.append("(* %s *)\nDefinition %s %s : %s * list bool :=\n  let tr := ([] : list bool) in\n%s.\n" % (comment, name, ps, rt, body))
+        else:
+            self.out.append("(* %s *)\nDefinition %s %s : res %s :=\n%s.\n" % (comment, name, ps, self.coq_type(rty), body))
         self.kernels.append((name, comment))
 
     def whole_fn(self, src, file, fname, result=False, const_generics=()):
@@ -822,13 +893,16 @@ class Gen:
         term, ty = self.seq(body[1], 0, body[2], c, rty if not isinstance(rty, tuple) else None)
         if ty != rty and not (result and ty is None):
             raise TranslateError("%s: body has type %s, signature says %s" % (fname, ty, rty))
-        name = "k_" + fname
+        name = self.prefix + fname
         self.sigs[fname] = (name, [t for _, t in plist], rty)
+        self.emit_option = result
         self.emit(name, plist, term, rty, "%s: fn %s" % (file, fname))
+        self.emit_option = False
 
     def fragment(self, name, comment, node, hints=None, params=(), stmts=False, want=None):
         """kernel cut out of a closure / loop body.  `params`: names bound by the enclosing closure or loop
         that are inputs of the kernel (name -> type in hints, default i32)."""
+        name = self.prefix + name[2:]
         self.current = name
         c = Ctx(self, {}, free_ok=True, hints=hints or {})
         c.gen_result = False
@@ -914,15 +988,17 @@ def innermost_for(body, what):
 G_CURRENT = []
 
 
-def generate():
-    g = Gen()
+def generate(release=False):
+    g = Gen(release)
     G_CURRENT[:] = [g]
     g.err_map = [(r"Alg 14: returns", "Reject"), (r"Alg 15: returns", "Reject")]
     crate_consts(g)
-    g.out.append("(* GENERATED by tools/gen_kernels.py (T4) from /repo/src/helpers.rs, high_low.rs, ntt.rs, conversion.rs -- do not edit *)\n"
-                 "Require Import ZArith List String Bool. Import ListNotations.\n"
+    g.out.append("(* GENERATED by tools/gen_kernels.py (T4) from /repo/src/helpers.rs, high_low.rs, ntt.rs, conversion.rs, ml_dsa.rs, lib.rs -- do not edit *)\n"
+                 + ("(* release-profile semantics (wrapping arithmetic, no debug assertions) with the leakage trace: r_<name> returns\n"
+                    "   (value, list of branch decisions in evaluation order) *)\n" if release else "")
+                 + "Require Import ZArith List String Bool. Import ListNotations.\n"
                  "Require Import F204.Base.Util F204.Base.Mach F204.Gen.Params.\n"
-                 "Open Scope string_scope. Open Scope Z_scope.\n")
+                 "Open Scope string_scope. Open Scope list_scope. Open Scope Z_scope.\n")
     h = read("src/helpers.rs")
     for fn in ("partial_reduce64", "partial_reduce32", "full_reduce32", "center_mod", "mont_reduce"):
         g.whole_fn(h, "helpers.rs", fn)
@@ -978,7 +1054,8 @@ def generate():
     fm = R.find_all(b, lambda n: n[0] == "const" and n[1] == "F_MONT")
     fmv = eval_const(one(fm, "inv_ntt F_MONT")[3], g)
     g.consts["F_MONT"] = (fmv, "i64")
-    g.out.append("Definition k_F_MONT : Z := %d.\n" % fmv)
+    if not release:
+        g.out.append("Definition k_F_MONT : Z := %d.\n" % fmv)
     g.fragment("k_inv_final", "ntt.rs: inv_ntt, the body of the final scaling loop", fors[1][3][1], stmts=True)
     # ---- ml_dsa.rs / lib.rs: every per-coefficient closure, named after the vector it defines; the two rejection
     # tests of the signing loop and the norm test of verification (norms and hint counts are inputs)
@@ -1004,6 +1081,23 @@ def generate():
                 raise TranslateError("sign_internal: expected two rejection tests (if .. { .. continue }), found %d" % len(conts))
             g.fragment("k_sign_reject1", "ml_dsa.rs: fn sign_internal, first rejection test", conts[0][1], hints={"CTEST": "bool"}, want="bool")
             g.fragment("k_sign_reject2", "ml_dsa.rs: fn sign_internal, second rejection test", conts[1][1], hints={"CTEST": "bool"}, want="bool")
+            # the counter bookkeeping of the rejection loop, as text: initial value, limit, and for each of the two exits the
+            # limit test and the increment (the statements of the `if .. { ensure!(..); kappa_ctr += ..; continue; }` blocks)
+            steps = []
+            for cnt in conts:
+                st = cnt[2][1]
+                if (len(st) != 3 or cnt[2][2] is not None or st[0][0] != "expr" or st[0][1][0] != "macro" or st[0][1][1] != "ensure"
+                        or st[1][0] != "expr" or st[1][1][0] != "assign" or st[1][1][1] != "+=" or st[1][1][2] != ("var", "kappa_ctr")
+                        or st[2] != ("expr", ("continue",))):
+                    raise TranslateError("sign_internal: a rejection exit is no longer `ensure!(..); kappa_ctr += ..; continue;`")
+                steps.append((render(st[0][1][2][0]), render(st[1][1][3])))
+            init = one(R.find_all(b, lambda n: n[0] == "let" and n[1] == ("pvar", "kappa_ctr")), "sign_internal `let mut kappa_ctr`")
+            kmax = one(R.find_all(b, lambda n: n[0] == "let" and n[1] == ("pvar", "kappa_max")), "sign_internal `let kappa_max`")
+            if not release:
+              g.out.append("(* ml_dsa.rs: fn sign_internal, counter bookkeeping of the rejection loop (source text) *)\n"
+                         "Definition k_sign_kappa_init : string := \"%s\".\nDefinition k_sign_kappa_max : string := \"%s\".\n"
+                         "Definition k_sign_kappa_steps : list (string * string) := [%s].\n"
+                         % (render(init[3]), render(kmax[3]), "; ".join('("%s", "%s")' % x for x in steps)))
         if fn == "verify_internal":
             left = one(R.find_all(b, lambda n: n[0] == "let" and n[1] == ("pvar", "left")), "verify_internal `let left`")
             g.fragment("k_verify_left", "ml_dsa.rs: fn verify_internal, `let left = ..`", left[3], want="bool")
@@ -1026,7 +1120,7 @@ def generate():
     if len(fors) != 2 or fors[1][2][0] != "range" or fors[1][2][3] or fors[1][2][1] != ("var", "index"):
         raise TranslateError("hint_bit_unpack: the trailing-zero loop is no longer `for i in index..<bound>`")
     g.fragment("k_hbu_tail_bound", "conversion.rs: fn hint_bit_unpack, upper bound of the trailing-zero loop", fors[1][2][2], hints=dict(hb_hints))
-    g.out.append("Definition kernel_names : list string := [%s].\n" % "; ".join('"%s"' % k for k, _ in g.kernels))
+    g.out.append("Definition %s : list string := [%s].\n" % ("leak_kernel_names" if release else "kernel_names", "; ".join('"%s"' % k for k, _ in g.kernels)))
     return "\n".join(g.out)
 
 
@@ -1058,18 +1152,19 @@ def eval_const(e, g):
 
 
 def main():
-    try:
-        text = generate()
-    except (TranslateError, R.ParseError) as ex:
-        print("TRANSLATOR T4 ABORT (%s): %s" % (G_CURRENT[0].current if G_CURRENT else "?", ex))
-        return 2
-    path = os.path.join(VERIF, "coq", "Gen", "Kernels.v")
-    old = open(path).read() if os.path.exists(path) else None
-    if old != text:
-        open(path, "w").write(text)
-        print("Gen/Kernels.v rewritten")
-    else:
-        print("Gen/Kernels.v unchanged")
+    for release, fname in ((False, "Kernels.v"), (True, "KernelsLeak.v")):
+        try:
+            text = generate(release)
+        except (TranslateError, R.ParseError) as ex:
+            print("TRANSLATOR T4 ABORT (%s%s): %s" % (G_CURRENT[0].current if G_CURRENT else "?", ", release/leakage pass" if release else "", ex))
+            return 2
+        path = os.path.join(VERIF, "coq", "Gen", fname)
+        old = open(path).read() if os.path.exists(path) else None
+        if old != text:
+            open(path, "w").write(text)
+            print("Gen/%s rewritten" % fname)
+        else:
+            print("Gen/%s unchanged" % fname)
     return 0
 
 
